@@ -22,11 +22,11 @@ PROPS = {
     ),
     "C02": dict(title="Equality in the value's own type", level="proof", lean=[], theorems={},
                 frags=[("scalar-eq", 400, 12000)], rule="scalar kinds x boundary values x literal spellings rendered from the value (equal / nearby / ill-typed / out of range); reference = strconv in the value's own type"),
-    "C03": dict(title="not/and/or truth tables", level="proof", lean=[], theorems={},
+    "C03": dict(title="not/and/or truth tables", level="proof", lean=['Props.C03', 'Ties.EvaluateShape'], theorems={},
                 frags=[("conn", 250, 6000)], rule="pairs (A,B) of generated sub-expressions on generated data; composites checked against the 3x3 table of the observed outcomes of A and B"),
-    "C04": dict(title="negated operators are complements", level="proof", lean=[], theorems={},
+    "C04": dict(title="negated operators are complements", level="proof", lean=['Props.C04', 'Ties.Dispatch'], theorems={},
                 frags=[("neg", 500, 15000)], rule="(selector, literal, datum) triples incl. absent keys, ill-typed literals; each positive operator against its negation, not(...), and contains vs in"),
-    "C05": dict(title="absent keys / unknown value", level="proof", lean=[], theorems={},
+    "C05": dict(title="absent keys / unknown value", level="proof", lean=['Props.C05', 'Ties.Dispatch'], theorems={},
                 frags=[("absent", 120, 2500)], rule="JSON-like documents; absent key below every map-valued path x 8 operators x {no unknown, unknown scalar}; error paths; neutral unknown"),
     "C06": dict(title="any/all fold", level="proof", lean=[], theorems={},
                 frags=[("unroll", 600, 15000), ("eval", 800, 15000)], rule="quantifiers over list paths of generated data, four binding modes, names colliding with the collection path / top-level fields; compared with the unrolled or/and chain on the real code"),
@@ -34,11 +34,11 @@ PROPS = {
                 frags=[("spelling", 500, 12000), ("parse-deriv", 300, 6000)], rule="expressions whose paths are spellable both ways, rendered all-dotted/bracket, all-pointer and mixed"),
     "C08": dict(title="hidden fields unobservable", level="proof", lean=[], theorems={},
                 frags=[("hidden", 500, 12000)], rule="pairs of data equal on visible fields (hidden = unexported or tagged '-' under the active tag name), expressions naming hidden fields; both tag names; filter positions"),
-    "C09": dict(title="Evaluate is total", level="proof", lean=[], theorems={},
+    "C09": dict(title="Evaluate is total", level="proof", lean=['Props.C09', 'Props.C03', 'Ties.EvaluateShape', 'Ties.Dispatch'], theorems={},
                 frags=[("matrix", 300, 15000), ("eval", 1500, 40000)], rule="complete operator x value-shape matrix (every reflect kind incl. invalid, nil/odd elements in containers) x 3 placements, plus random nesting"),
     "C10": dict(title="creation total on arbitrary bytes", level="proof", lean=[], theorems={},
                 frags=[("parse-bytes", 1500, 60000), ("parse-tokens", 1500, 100000)], rule="byte-level mutations incl. invalid UTF-8/NUL/unterminated quotes; exhaustive token sequences; shape oracle on CreateEvaluator/CreateFilter/Parse"),
-    "C11": dict(title="max-expressions budget exact", level="proof", lean=[], theorems={},
+    "C11": dict(title="max-expressions budget exact", level="proof", lean=['Props.C11'], theorems={},
                 frags=[("budget", 60, 1200)], rule="inputs (valid, invalid, nested parentheses) x budgets N-3..N+3, 1..3, geometric sweep to 2^22, 2^40, 2^63, 2^64-1; both option spellings; step counter compared exactly with the model"),
     "C12": dict(title="concurrent use", level="proof", lean=[], theorems={}, frags=[], race=True,
                 rule="k goroutines on one evaluator/filter under the Go race detector, first use and steady state; results compared with the sequential run"),
@@ -56,6 +56,6 @@ PROPS = {
                 frags=[("opts", 40, 800)], rule="all 16 subsets x permutations of the four options, repeated options, nil option, neutral settings"),
     "C19": dict(title="ExpressionDump", level="proof", lean=[], theorems={},
                 frags=[("dump", 500, 15000)], rule="parser-produced trees x indent strings x start levels, compared with the Lean model of the dump"),
-    "C20": dict(title="generated parser = grammar", level="proof", lean=[], theorems={},
+    "C20": dict(title="generated parser = grammar", level="proof", lean=['Props.C20'], theorems={},
                 frags=[("parse-tokens", 300, 100000)], rule="complete structural comparison of the two regenerated tables (kernel-checked), plus parses on both tables"),
 }
